@@ -54,7 +54,8 @@ pub fn c18_grid(tier: &str) -> Value {
     let name = "c18_grid";
     let target = "SpacePoint::try_from(Avalanche) -> DriftTables::at -> DriftTable::at on the shipped table";
     let bound = "every z-slice boundary (exact, +-1 ulp), slice midpoints, both signs of z; per slice every tabulated time (exact, +-1 ulp), every knot midpoint, \
-                 one value before the first and after the last knot, t = -1e-6 and 5e-6 (about 2.3 million lookups)";
+                 one value before the first and after the last knot, t = -1e-6 and 5e-6 (about 2.3 million lookups); \
+                 three knots of every slice again in descending order of |z| and with outermost look-ups in between";
     let tabs = match load() { Ok(t) => t, Err(e) => return json!({"error": e}) };
     let fail = |reason: String, z: f64, t: f64| json!({"status": "failed", "target": target, "bound": bound, "check": name, "reason": reason.clone(),
         "witness": {"op": "rerun_native", "check": name, "failing_case": reason, "z": z, "t": t, "z_bits": format!("{:016x}", z.to_bits()), "t_bits": format!("{:016x}", t.to_bits())}});
@@ -145,6 +146,28 @@ pub fn c18_grid(tier: &str) -> Value {
                         }
                     }
                     _ => return fail("z and -z classified differently".into(), za, t),
+                }
+            }
+        }
+    }
+    // history independence: the same kind of look-up in descending order of |z|, and with a look-up in the outermost slice in
+    // between (the grid above only ever moves outwards; a conversion must not depend on the conversions made before it)
+    for pass in 0..2 {
+        for s in (0..tabs.len()).rev() {
+            let lo = if s == 0 { 0.0 } else { tabs[s - 1].1 };
+            let mid = 0.5 * (lo + tabs[s].1);
+            let e = match expected_slice(mid) { Some(e) => e, None => return fail(format!("oracle: no slice for |z|={mid}"), mid, 0.0) };
+            let tab = &tabs[e].0;
+            for k in [0, tab.len() / 2, tab.len() - 1] {
+                if pass == 1 { let _ = lookup(if k % 2 == 0 { zmax } else { -zmax }, 1e-6); }
+                let t = tab[k][0];
+                cases += 1;
+                match lookup(if pass == 0 { mid } else { -mid }, t) {
+                    Out::Ok(r, _, _) => if (r - tab[k][1]).abs() > 1e-12 {
+                        return fail(format!("slice {e}: knot {k} radius {} looked up as {r} after look-ups at larger |z| (the result depends on earlier look-ups)", tab[k][1]), mid, t);
+                    },
+                    Out::Panic(p) => return fail(format!("panic: {p}"), mid, t),
+                    _ => return fail(format!("slice {e}: knot {k} (t={t:e}) rejected after look-ups at larger |z| (the result depends on earlier look-ups)"), mid, t),
                 }
             }
         }
